@@ -279,6 +279,14 @@ def delay(*args):
     return tDelayed if not initial else "self.delay( {},{},{},t)".format(tDelayed,offset,initial)
 
 
+def init_(args):
+    # the argument as of the start of the run: every reference to the current time (TIME itself, the time argument of
+    # element references, of delays, ...) is evaluated at the start time, not only the element references; the result is
+    # parenthesised because it is pasted into larger expressions
+    pattern = r"""(?<![a-zA-Z_0-9\.'"])t(?![a-zA-Z_0-9'"])"""
+    return "(" + re.sub(pattern, "(self.starttime)", str(parseExpression(args))) + ")"
+
+
 def if_(expression):
     condition = parseExpression(expression[0])
     then = parseExpression(expression[1])
@@ -920,7 +928,7 @@ builtins = {
 
     # Data builtins
     # http://www.iseesystems.com/Helpv10/Content/Reference/Builtins/Data_builtins.htm
-    'init': lambda *args: parseExpression(args).replace(", t", ", self.starttime"),
+    'init': lambda *args: init_(args),
 
     'endval' : lambda *args : endval_(args),
 
